@@ -113,6 +113,11 @@ class Files(object):
 def timing_case(chk, F, scn, out, idx):
     ts, tt, bt, et, date, tch, ver = scn
     names = ['FSC', 'SSC'] + ([tch] if tch != 'none' else [])
+    decoy = tch == 'none' and idx % 3 == 0
+    if decoy:
+        # names are kept as written: ` Time` (with a blank) is a channel of that name, not the time channel - the file has
+        # none, and the duration comes from the clock keywords as the specification says for "none"
+        names = ['FSC ', ' SSC', ' Time']
     D = len(names)
     ev = [[5, 9, 7][:D] if D == 3 else [5, 9], [6, 10, 100][:D], [7, 11, 507][:D]]
     extra = []
@@ -123,7 +128,7 @@ def timing_case(chk, F, scn, out, idx):
     # the numeric type of the file is a rendering dimension: integer, double and single precision.  In floating-point
     # files the time stamps carry fractions (first + 0.75, last + 0.25): the span is half a tick short of the
     # specification's integral one, and the expectation below is adjusted by exactly that
-    dt = ['I', 'D', 'I', 'F'][idx % 4] if D == 3 else 'I'
+    dt = ['I', 'D', 'I', 'F'][idx % 4] if (D == 3 and not decoy) else 'I'
     if dt != 'I':
         ev = [[float(v) for v in r] for r in ev]
         ev[0][2] += 0.75
@@ -135,6 +140,8 @@ def timing_case(chk, F, scn, out, idx):
     except Exception as e:  # noqa
         return {'load': 'raises:' + type(e).__name__}, 'load-raises'
     obs['time_step'] = d.time_step
+    if list(d.channels) != names:
+        return {'channels': list(d.channels)}, 'channel-names-not-as-written'
     obs['start'] = proj_stamp(d.acquisition_start_time)
     obs['end'] = proj_stamp(d.acquisition_end_time)
     try:
